@@ -19,8 +19,10 @@ PROP = "C10"
 CONFIGS = [("jit", {}), ("nojit", {"STEEL_JIT": "false"})]
 
 # quick tier: shapes replayed for every tuple; the remaining shapes of a tuple are replayed
-# for a seeded third of the tuples (the thorough tier replays every shape of every tuple)
-ALWAYS = {"fold", "opq", "fn", "fnlitR", "if", "fnif"}
+# for a seeded eighth of the tuples (the thorough tier replays every shape of every tuple)
+PROBE = {"opq", "nest"}                     # phase-1 shapes (one per tuple)
+AFTER_PANIC = {"fold", "fn", "fnacc"}      # phase-2 shapes still replayed for a tuple whose probe panicked
+ALWAYS = {"fold", "opq", "nest", "fn", "fnlitR", "fnif", "fnacc", "namedlet"}
 
 
 def seeded_cfg(tier, seed, work, cfg_name=None):
@@ -69,7 +71,7 @@ def fan_out(tcase, tier, seed):
     out = []
     key = json.dumps([tcase["fam"], tcase["op"], tcase["args"]])
     h = hashlib.sha1(key.encode()).hexdigest()
-    every = tier != "quick" or (int(h[:8], 16) + seed) % 3 == 0
+    every = tier != "quick" or (int(h[:8], 16) + seed) % 8 == 0
     seen = set()
     for t in tcase["tests"]:
         if not every and t["sh"] not in ALWAYS:
@@ -86,7 +88,7 @@ def fan_out(tcase, tier, seed):
             steps.append({"src": t["src"], "class": "ok", "emit": [t["emit"]]})
         out.append({"id": f"{tcase['fam']}-{t['sh']}-{h[:12]}", "fresh": False, "steps": steps,
                     "tag": f"{tcase['fam']}:{tcase['op']}:{t['sh']}", "rep": tcase["rep"],
-                    "args": tcase["args"], "cls": tcase["cls"]})
+                    "args": tcase["args"], "cls": tcase["cls"], "tkey": h[:12], "sh": t["sh"]})
     return out
 
 
@@ -103,6 +105,32 @@ def nontrivial(case):
 
 def with_env(cases, name, env):
     return [dict(c, id=f"{c['id']}/{name}", env=env) for c in cases]
+
+
+def annotate_crashes(jit_verdicts, nojit_verdicts):
+    """The panic message of a failing step is appended to the verdict text, so that a known finding
+    is recognised by its symptom.  With the JIT on, a Rust panic below native frames aborts the
+    process and the verdict only says 'process crash': when the same case panics without the JIT,
+    that message is appended instead."""
+    def panic_msg(v):
+        msgs = [g.get("msg") for g in v.get("got", []) if g.get("class") == "panic" and g.get("msg")]
+        return msgs[0] if msgs else None
+    for vj, vn in zip(jit_verdicts, nojit_verdicts):
+        for v in (vj, vn):
+            if not v["pass"] and panic_msg(v):
+                v["why"] += f" [panic: {panic_msg(v)}]"
+        if not vj["pass"] and vj.get("why", "").startswith("process crash") and panic_msg(vn):
+            vj["why"] += f" [the same case without the JIT panics: {panic_msg(vn)}]"
+
+
+def replay_batched(cases, work, env, name, batch=36000):
+    """vlib.replay in batches: a panic under the JIT costs one replayer restart (the process aborts),
+    the known findings of C10 cause thousands of them in the thorough tier, and the restart budget
+    and the cost of re-reading the case file are per replay call."""
+    out = []
+    for i in range(0, len(cases), batch):
+        out += vlib.replay(cases[i:i + batch], work, env_extra=env, jobs=12, timeout_ms=10000, name=name)
+    return out
 
 
 def mutant_selftest(cases, work):
@@ -161,20 +189,48 @@ def run(tier, seed, cfg_name=None):
     if not cases:
         raise vlib.ToolError("Num.tla generated no case")
     cases.sort(key=lambda c: c["id"])
-    first_verdicts = None
-    for name, env in CONFIGS:
-        cs = with_env(cases, name, env)
-        vs = vlib.replay(cs, work, env_extra=env, jobs=12, timeout_ms=10000, name=f"c10.{name}")
-        r.add_cases(cs, vs, nontrivial=nontrivial)
-        if first_verdicts is None:
-            first_verdicts = vs
-    passing = [c for c, v in zip(cases, first_verdicts) if v["pass"]]
+    # Phase 1: the probe shape of every tuple (every operand opaque: the primitive / opcode itself).
+    # Phase 2: the other shapes.  A tuple whose probe PANICS is a defect of the primitive; it panics in
+    # every shape, and each panic costs an engine (or, under the JIT, a process): for such tuples only
+    # the shapes in AFTER_PANIC are replayed in phase 2.  Nothing else is skipped.
+    phase1 = [c for c in cases if c["sh"] in PROBE]
+    rest = [c for c in cases if c["sh"] not in PROBE]
+    runs = []
+    panicking = set()
+    skipped = 0
+    for phase, pcs in (("p1", phase1), ("p2", rest)):
+        if phase == "p2":
+            kept = [c for c in pcs if c["tkey"] not in panicking or c["sh"] in AFTER_PANIC]
+            skipped = len(pcs) - len(kept)
+            pcs = kept
+        pruns = []
+        for name, env in CONFIGS:
+            cs = with_env(pcs, name, env)
+            vs = replay_batched(cs, work, env, f"c10.{phase}.{name}")
+            pruns.append((cs, vs))
+        annotate_crashes(pruns[0][1], pruns[1][1])
+        for cs, vs in pruns:
+            for c, v in zip(cs, vs):
+                if not v["pass"] and ("[panic:" in v["why"] or v["why"].startswith("process crash")):
+                    panicking.add(c["tkey"])
+        runs.append(pruns)
+    disagree = 0
+    passing = []
+    for pruns in runs:
+        for cs, vs in pruns:
+            r.add_cases(cs, vs, nontrivial=nontrivial)
+        disagree += sum(1 for a, b in zip(pruns[0][1], pruns[1][1]) if a["pass"] != b["pass"])
+        passing += [c for c, v in zip(pruns[0][0], pruns[0][1]) if v["pass"]]
+    replayed = sum(len(pruns[0][0]) for pruns in runs)
+    r.notes.append(f"cases whose verdict differs between JIT on and STEEL_JIT=false: {disagree}")
+    r.notes.append(f"tuples whose primitive panics: {len(panicking)}; their {skipped} remaining shape cases "
+                   f"(other than {sorted(AFTER_PANIC)}) were not replayed")
     n_mut = mutant_selftest(passing, work)
     r.cov["rule"] = ("one evaluation = one (operator, operand tuple, call shape) replayed under one JIT "
                      "setting; distinct_nontrivial counts distinct step lists in which an operand or the "
                      "result is a bignum, ratio, flonum or a fixnum of >= 10 digits, or an error is expected")
     r.cov["exhaustive"] = tier != "quick"
-    r.notes.append(f"tuples={tuples} per family={per_fam}; shapes fanned out to {len(cases)} cases x {len(CONFIGS)} configs")
+    r.notes.append(f"tuples={tuples} per family={per_fam}; shapes fanned out to {len(cases)} cases, {replayed} replayed x {len(CONFIGS)} configs")
     r.notes.append(f"operator x representation-class signatures covered: {len(matrix)}")
     r.notes.append(f"flonum table rows validated against host IEEE-754: {ftab}; mutant expectations rejected: {n_mut}")
     r.assumptions.append("inexact results are decided only where IEEE-754 determines them without rounding "
